@@ -9,6 +9,129 @@ import CoseProofs.Props.C14
 import CoseProofs.Props.C15
 open CoseModel
 
+/-! ## C14 — COSE_Key conversion on the parameter map -/
+
+namespace C14
+
+/-! ### `GoMap.set` / `GoMap.lookup` -/
+
+theorem keyEq_lbl_iff (a : GoVal) (n : Int) : a.keyEq (lbl n) = true ↔ a = lbl n := by
+  cases a <;> simp [lbl, GoVal.keyEq]
+
+theorem keyEq_lbl_lbl (n m : Int) : (lbl n).keyEq (lbl m) = decide (n = m) := by
+  simp [lbl, GoVal.keyEq]
+
+theorem lookup_nil (k : GoVal) : GoMap.lookup [] k = none := rfl
+
+theorem lookup_cons (a b : GoVal) (t : GoMap) (k : GoVal) :
+    GoMap.lookup ((a, b) :: t) k = if a.keyEq k = true then some b else GoMap.lookup t k := by
+  unfold GoMap.lookup
+  rw [List.find?_cons]
+  by_cases h : a.keyEq k = true
+  · simp [h]
+  · simp [h]
+
+theorem lookup_append_of_none (h t : GoMap) (k : GoVal) (hn : h.lookup k = none) :
+    GoMap.lookup (h ++ t) k = GoMap.lookup t k := by
+  induction h with
+  | nil => rfl
+  | cons e r ih =>
+    obtain ⟨a, b⟩ := e
+    rw [lookup_cons] at hn
+    rw [List.cons_append, lookup_cons]
+    by_cases hk : a.keyEq k = true
+    · rw [if_pos hk] at hn; cases hn
+    · rw [if_neg hk] at hn ⊢
+      exact ih hn
+
+theorem lookup_append_of_some (h t : GoMap) (k v : GoVal) (hs : h.lookup k = some v) :
+    GoMap.lookup (h ++ t) k = some v := by
+  induction h with
+  | nil => cases hs
+  | cons e r ih =>
+    obtain ⟨a, b⟩ := e
+    rw [lookup_cons] at hs
+    rw [List.cons_append, lookup_cons]
+    by_cases hk : a.keyEq k = true
+    · rw [if_pos hk] at hs ⊢; exact hs
+    · rw [if_neg hk] at hs ⊢
+      exact ih hs
+
+/-- overwrite in place: looking the written key up -/
+theorem lookup_map_same (h : GoMap) (k v : GoVal) (hh : h.lookup k ≠ none) :
+    GoMap.lookup (h.map (fun e => if e.1.keyEq k then (e.1, v) else e)) k = some v := by
+  induction h with
+  | nil => exact absurd rfl hh
+  | cons e r ih =>
+    obtain ⟨a, b⟩ := e
+    rw [lookup_cons] at hh
+    rw [List.map_cons]
+    by_cases hk : a.keyEq k = true
+    · simp only [hk, if_true]
+      rw [lookup_cons, if_pos hk]
+    · rw [if_neg hk] at hh
+      simp only [hk, Bool.false_eq_true, if_false]
+      rw [lookup_cons, if_neg hk]
+      exact ih hh
+
+/-- overwrite in place: looking another key up -/
+theorem lookup_map_other (h : GoMap) (k k' v : GoVal)
+    (hd : ∀ a : GoVal, a.keyEq k = true → a.keyEq k' = false) :
+    GoMap.lookup (h.map (fun e => if e.1.keyEq k then (e.1, v) else e)) k' = GoMap.lookup h k' := by
+  induction h with
+  | nil => rfl
+  | cons e r ih =>
+    obtain ⟨a, b⟩ := e
+    rw [List.map_cons]
+    by_cases hk : a.keyEq k = true
+    · have hk' := hd a hk
+      simp only [hk, if_true]
+      rw [lookup_cons, lookup_cons, hk', ih]
+      simp
+    · simp only [hk, Bool.false_eq_true, if_false]
+      rw [lookup_cons, lookup_cons, ih]
+
+/-- `m[k] = v; m[k]` is `v` (for a key comparable with itself) -/
+theorem lookup_set_same (h : GoMap) (k v : GoVal) (hr : k.keyEq k = true) :
+    (h.set k v).lookup k = some v := by
+  unfold GoMap.set GoMap.has
+  cases hl : h.lookup k with
+  | none =>
+    simp only [Option.isSome_none, Bool.false_eq_true, if_false]
+    rw [lookup_append_of_none h _ k hl, lookup_cons, if_pos hr]
+  | some w =>
+    simp only [Option.isSome_some, if_true]
+    exact lookup_map_same h k v (by rw [hl]; simp)
+
+/-- `m[k] = v` leaves every other key alone -/
+theorem lookup_set_other (h : GoMap) (k k' v : GoVal) (hkk : k.keyEq k' = false)
+    (hd : ∀ a : GoVal, a.keyEq k = true → a.keyEq k' = false) :
+    (h.set k v).lookup k' = h.lookup k' := by
+  unfold GoMap.set GoMap.has
+  cases hl : h.lookup k with
+  | none =>
+    simp only [Option.isSome_none, Bool.false_eq_true, if_false]
+    cases hl' : h.lookup k' with
+    | none => rw [lookup_append_of_none h _ k' hl', lookup_cons, hkk]; rfl
+    | some w => exact lookup_append_of_some h _ k' w hl'
+  | some w =>
+    simp only [Option.isSome_some, if_true]
+    exact lookup_map_other h k k' v hd
+
+theorem lookup_set_lbl_same (h : GoMap) (n : Int) (v : GoVal) :
+    (h.set (lbl n) v).lookup (lbl n) = some v :=
+  lookup_set_same h (lbl n) v (by simp [keyEq_lbl_lbl])
+
+theorem lookup_set_lbl_other (h : GoMap) (n m : Int) (v : GoVal) (hne : n ≠ m) :
+    (h.set (lbl n) v).lookup (lbl m) = h.lookup (lbl m) := by
+  apply lookup_set_other
+  · simp [keyEq_lbl_lbl, hne]
+  · intro a ha
+    rw [(keyEq_lbl_iff a n).mp ha]
+    simp [keyEq_lbl_lbl, hne]
+
+end C14
+
 /-! ## C15 — gates and accepted keys -/
 
 namespace C15
@@ -233,3 +356,559 @@ theorem accepted_labels (tmp : GoMap) (k : Key) (h : Key.ofMap tmp = .ok k) :
   exact keyParams_labels k.kty rest k.params hp
 
 end C15
+
+/-! ## C14 — the serialised EC2 / OKP parameters -/
+
+namespace C14
+
+/-! ### the serialised parameter map -/
+
+/-- a normalised label is equal (Go `==`) only to itself -/
+theorem keyEq_normal_iff {l nl : GoVal} (hn : normalizeLabel l = some nl) (a : GoVal) :
+    a.keyEq nl = true ↔ a = nl := by
+  cases l <;> simp [normalizeLabel] at hn <;> subst hn <;> cases a <;> simp [GoVal.keyEq]
+
+theorem keyEq_normal_self {l nl : GoVal} (hn : normalizeLabel l = some nl) : nl.keyEq nl = true :=
+  (keyEq_normal_iff hn nl).mpr rfl
+
+theorem normalizeLabel_lbl_small (n : Int) (h1 : -9223372036854775808 ≤ n) (h2 : n ≤ 9223372036854775807) :
+    normalizeLabel (lbl n) = some (lbl n) := by
+  have : wrap64 n = n := by
+    unfold wrap64
+    simp only []
+    split <;> omega
+  simp [lbl, normalizeLabel, this]
+
+/-- the parameter loop of `Key.MarshalCBOR` never overwrites a label it has already seen -/
+theorem go_keeps : ∀ (r : GoMap) (seen : List GoVal) (acc m0 : GoMap) (l nl v : GoVal),
+    Key.marshalMap.go r seen acc = some m0 → normalizeLabel l = some nl → nl ∈ seen →
+    acc.lookup nl = some v → m0.lookup nl = some v
+  | [], seen, acc, m0, l, nl, v, h, hn, hs, ha => by
+    simp only [Key.marshalMap.go] at h
+    cases h
+    exact ha
+  | (l', v') :: r, seen, acc, m0, l, nl, v, h, hn, hs, ha => by
+    unfold Key.marshalMap.go at h
+    split at h
+    · cases h
+    · rename_i nl' hn'
+      split at h
+      · cases h
+      · rename_i hany
+        have hne : nl.keyEq nl' = false := by
+          cases hq : nl.keyEq nl' with
+          | false => rfl
+          | true =>
+            exfalso
+            apply hany
+            exact List.any_eq_true.mpr ⟨nl, hs, hq⟩
+        have hne' : nl'.keyEq nl = false := by
+          cases hq : nl'.keyEq nl with
+          | false => rfl
+          | true =>
+            rw [(keyEq_normal_iff hn nl').mp hq, keyEq_normal_self hn] at hne
+            cases hne
+        refine go_keeps r (nl' :: seen) (acc.set nl' v') m0 l nl v h hn (List.mem_cons_of_mem _ hs) ?_
+        rw [lookup_set_other acc nl' nl v' hne', ha]
+        intro a ha'
+        rw [(keyEq_normal_iff hn' a).mp ha']
+        exact hne'
+
+/-- every parameter ends up in the serialised map under its normalised label -/
+theorem go_lookup : ∀ (r : GoMap) (seen : List GoVal) (acc m0 : GoMap) (l nl v : GoVal),
+    Key.marshalMap.go r seen acc = some m0 → (l, v) ∈ r → normalizeLabel l = some nl →
+    m0.lookup nl = some v
+  | [], _, _, _, _, _, _, _, hm, _ => by cases hm
+  | (l', v') :: r, seen, acc, m0, l, nl, v, h, hm, hn => by
+    unfold Key.marshalMap.go at h
+    split at h
+    · cases h
+    · rename_i nl' hn'
+      split at h
+      · cases h
+      · rcases List.mem_cons.mp hm with heq | hr
+        · have hl : l = l' := (Prod.mk.inj heq).1
+          have hv : v = v' := (Prod.mk.inj heq).2
+          rw [← hl, hn] at hn'
+          rw [← hv] at h
+          cases hn'
+          exact go_keeps r (nl :: seen) (acc.set nl v) m0 l nl v h hn (List.mem_cons_self ..)
+            (lookup_set_same acc nl v (keyEq_normal_self hn))
+        · exact go_lookup r (nl' :: seen) (acc.set nl' v') m0 l nl v h hr hn
+
+/-- the EC2 coordinate padding at the end of `Key.MarshalCBOR` (key.go:569-578) -/
+def padXY (k : Key) (m : GoMap) : GoMap :=
+  let size := curveSize k.crv
+  let x := k.pbytes (-2)
+  let y := k.pbytes (-3)
+  let m := if 0 < x.length ∧ x.length < size then m.set (lbl (-2)) (.bytes (leftPad size x)) else m
+  if 0 < y.length ∧ y.length < size then m.set (lbl (-3)) (.bytes (leftPad size y)) else m
+
+theorem marshalMap_ec2_inv (k : Key) (m : GoMap) (hm : k.marshalMap = some m) (h2 : k.kty = 2)
+    (hs : curveSize k.crv > 0) :
+    ∃ base m0, Key.marshalMap.go k.params [] base = some m0 ∧ m = padXY k m0 := by
+  unfold Key.marshalMap at hm
+  simp only [] at hm
+  split at hm
+  · cases hm
+  · rename_i m0 hgo
+    rw [if_pos h2, if_pos hs] at hm
+    cases hm
+    exact ⟨_, m0, hgo, rfl⟩
+
+theorem lookup_ite_set_other (c : Prop) [Decidable c] (m : GoMap) (n n' : Int) (w : GoVal) (hne : n ≠ n') :
+    (if c then m.set (lbl n) w else m).lookup (lbl n') = m.lookup (lbl n') := by
+  split
+  · exact lookup_set_lbl_other m n n' w hne
+  · rfl
+
+theorem lookup_pad (m : GoMap) (n : Int) (size : Nat) (b : Bytes)
+    (hl : m.lookup (lbl n) = some (.bytes b)) :
+    (if 0 < b.length ∧ b.length < size then m.set (lbl n) (.bytes (leftPad size b)) else m).lookup (lbl n)
+      = some (.bytes (leftPad size b)) := by
+  split
+  · exact lookup_set_lbl_same m n _
+  · rename_i hc
+    rw [hl, leftPad, if_neg hc]
+
+
+theorem lt_pow_of_natBytes_length_le (x size : Nat) (h : (natBytes x).length ≤ size) :
+    x < 256 ^ size := by
+  have h1 := os2ip_lt (natBytes x)
+  rw [os2ip_natBytes] at h1
+  exact Nat.lt_of_lt_of_le h1 (Nat.pow_le_pow_right (by decide) h)
+
+/-- the parameter list `NewKeyEC2` builds -/
+def ecParams (crv : Int) (x y : Nat) (d : Option Nat) : GoMap :=
+  let params : GoMap := [(lbl (-1), .crv crv), (lbl (-2), .bytes (natBytes x)), (lbl (-3), .bytes (natBytes y))]
+  match d with | some dv => params ++ [(lbl (-4), .bytes (natBytes dv))] | none => params
+
+theorem keyFromEC_inv (bits x y : Nat) (d : Option Nat) (k : Key)
+    (hk : keyFromEC bits x y d = .ok k) :
+    (curveOfBits bits = 1 ∨ curveOfBits bits = 2 ∨ curveOfBits bits = 3) ∧
+    k = { kty := 2,
+          alg := (if curveOfBits bits = 1 then -7 else if curveOfBits bits = 2 then -35 else -36),
+          params := ecParams (curveOfBits bits) x y d } ∧
+    k.validate .none = none := by
+  unfold keyFromEC at hk
+  simp only [] at hk
+  split at hk
+  · cases hk
+  · rename_i hc
+    split at hk
+    · cases hk
+    · rename_i hv
+      cases hk
+      refine ⟨?_, rfl, hv⟩
+      unfold curveOfBits at hc ⊢
+      by_cases h1 : bits = 256
+      · simp [h1]
+      · by_cases h2 : bits = 384
+        · simp [h2]
+        · by_cases h3 : bits = 521
+          · simp [h3]
+          · simp [h1, h2, h3] at hc
+
+theorem ecParams_lookups (c : Int) (x y : Nat) (d : Option Nat) :
+    (ecParams c x y d).lookup (lbl (-1)) = some (.crv c) ∧
+    (ecParams c x y d).lookup (lbl (-2)) = some (.bytes (natBytes x)) ∧
+    (ecParams c x y d).lookup (lbl (-3)) = some (.bytes (natBytes y)) ∧
+    (∀ dv, d = some dv → (ecParams c x y d).lookup (lbl (-4)) = some (.bytes (natBytes dv))) := by
+  cases d <;> simp [ecParams, lookup_cons, keyEq_lbl_lbl, lookup_nil]
+
+theorem ecParams_mem (c : Int) (x y : Nat) (d : Option Nat) :
+    (lbl (-2), GoVal.bytes (natBytes x)) ∈ ecParams c x y d ∧
+    (lbl (-3), GoVal.bytes (natBytes y)) ∈ ecParams c x y d ∧
+    (∀ dv, d = some dv → (lbl (-4), GoVal.bytes (natBytes dv)) ∈ ecParams c x y d) := by
+  cases d <;> simp [ecParams]
+
+theorem crv_of_lookup (k : Key) (c : Int) (h : k.params.lookup (lbl (-1)) = some (.crv c)) :
+    k.crv = c := by
+  simp [Key.crv, paramInt, h, Lk.getD]
+
+theorem pbytes_of_lookup (k : Key) (n : Int) (b : Bytes)
+    (h : k.params.lookup (lbl n) = some (.bytes b)) : k.pbytes n = b := by
+  simp [Key.pbytes, paramBytes, h, Lk.getD]
+
+/-- everything the serialised map of `NewKeyEC2(x, y, d)` holds for the coordinates -/
+theorem ec2_marshal_lookups (bits x y : Nat) (d : Option Nat) (k : Key) (m : GoMap)
+    (hk : keyFromEC bits x y d = .ok k) (hm : k.marshalMap = some m) (hx : 0 < x) (hy : 0 < y) :
+    ∃ size, size = curveSize (curveOfBits bits) ∧ size ≠ 0 ∧ x < 256 ^ size ∧ y < 256 ^ size ∧
+      m.lookup (lbl (-2)) = some (.bytes (fillBytes size x)) ∧
+      m.lookup (lbl (-3)) = some (.bytes (fillBytes size y)) ∧
+      (∀ dv, d = some dv → m.lookup (lbl (-4)) = some (.bytes (natBytes dv))) := by
+  obtain ⟨hc, hkeq, hv⟩ := keyFromEC_inv bits x y d k hk
+  have hl := ecParams_lookups (curveOfBits bits) x y d
+  have hpar : k.params = ecParams (curveOfBits bits) x y d := by rw [hkeq]
+  have h2 : k.kty = 2 := by rw [hkeq]
+  rw [← hpar] at hl
+  have hcrv := crv_of_lookup k _ hl.1
+  have hpx := pbytes_of_lookup k _ _ hl.2.1
+  have hpy := pbytes_of_lookup k _ _ hl.2.2.1
+  have hsz : curveSize k.crv > 0 := by
+    rw [hcrv]
+    rcases hc with h | h | h <;> rw [h] <;> decide
+  obtain ⟨_, _, _, _, _, hlen⟩ := C15.validate_ec2 k .none hv h2
+  obtain ⟨hlx, hly, _⟩ := hlen hsz
+  rw [hpx] at hlx
+  rw [hpy] at hly
+  obtain ⟨base, m0, hgo, hmeq⟩ := marshalMap_ec2_inv k m hm h2 hsz
+  have hmem := ecParams_mem (curveOfBits bits) x y d
+  rw [← hpar] at hmem
+  have h0x := go_lookup _ _ _ _ _ _ _ hgo hmem.1 (normalizeLabel_lbl_small (-2) (by decide) (by decide))
+  have h0y := go_lookup _ _ _ _ _ _ _ hgo hmem.2.1 (normalizeLabel_lbl_small (-3) (by decide) (by decide))
+  have hxlt := lt_pow_of_natBytes_length_le _ _ hlx
+  have hylt := lt_pow_of_natBytes_length_le _ _ hly
+  refine ⟨curveSize k.crv, by rw [hcrv], by omega, hxlt, hylt, ?_, ?_, ?_⟩
+  · rw [hmeq, padXY]
+    rw [lookup_ite_set_other _ _ (-3) (-2) _ (by decide), hpx, lookup_pad _ _ _ _ h0x,
+      leftPad_natBytes _ _ hx hxlt]
+  · rw [hmeq, padXY]
+    rw [hpy, lookup_pad _ (-3) _ (natBytes y), leftPad_natBytes _ _ hy hylt]
+    rw [lookup_ite_set_other _ _ (-2) (-3) _ (by decide)]
+    exact h0y
+  · intro dv hd
+    have h0d := go_lookup _ _ _ _ _ _ _ hgo (hmem.2.2 dv hd)
+      (normalizeLabel_lbl_small (-4) (by decide) (by decide))
+    rw [hmeq, padXY, lookup_ite_set_other _ _ (-3) (-4) _ (by decide),
+      lookup_ite_set_other _ _ (-2) (-4) _ (by decide)]
+    exact h0d
+
+/-- the serialised x and y always have exactly the curve's byte size: the value left-padded
+    with zeros -/
+theorem ec2_marshal_fullwidth (bits x y : Nat) (d : Option Nat) (k : Key) (m : GoMap)
+    (hk : keyFromEC bits x y d = .ok k) (hm : k.marshalMap = some m) (hx : 0 < x) (hy : 0 < y) :
+    ∃ size, size = curveSize (curveOfBits bits) ∧ size ≠ 0 ∧
+      m.lookup (lbl (-2)) = some (.bytes (fillBytes size x)) ∧
+      m.lookup (lbl (-3)) = some (.bytes (fillBytes size y)) := by
+  obtain ⟨size, h1, h2, _, _, h3, h4, _⟩ := ec2_marshal_lookups bits x y d k m hk hm hx hy
+  exact ⟨size, h1, h2, h3, h4⟩
+
+/-- converting the serialised parameters back (`SetBytes`) yields the same numbers -/
+theorem ecCoords_of_params (p : GoMap) (size x y dv : Nat)
+    (hx : p.lookup (lbl (-2)) = some (.bytes (leftPad size (natBytes x))))
+    (hy : p.lookup (lbl (-3)) = some (.bytes (leftPad size (natBytes y))))
+    (hd : p.lookup (lbl (-4)) = some (.bytes (natBytes dv))) :
+    ({ params := p } : Key).ecCoords = (x, y, dv) := by
+  unfold Key.ecCoords
+  rw [pbytes_of_lookup _ _ _ hx, pbytes_of_lookup _ _ _ hy, pbytes_of_lookup _ _ _ hd,
+    os2ip_leftPad, os2ip_leftPad, os2ip_natBytes, os2ip_natBytes, os2ip_natBytes]
+
+/-- the same for any key, whatever its other fields -/
+theorem ec2_coords_roundtrip (k' : Key) (size x y dv : Nat)
+    (hx : k'.params.lookup (lbl (-2)) = some (.bytes (leftPad size (natBytes x))))
+    (hy : k'.params.lookup (lbl (-3)) = some (.bytes (leftPad size (natBytes y))))
+    (hd : k'.params.lookup (lbl (-4)) = some (.bytes (natBytes dv))) :
+    k'.ecCoords = (x, y, dv) := by
+  unfold Key.ecCoords
+  rw [pbytes_of_lookup _ _ _ hx, pbytes_of_lookup _ _ _ hy, pbytes_of_lookup _ _ _ hd,
+    os2ip_leftPad, os2ip_leftPad, os2ip_natBytes, os2ip_natBytes, os2ip_natBytes]
+
+/-- end to end: the coordinates read back from the serialised map of `NewKeyEC2(x, y, d)` are
+    `x`, `y`, `d` -/
+theorem ec2_marshal_coords (bits x y dv : Nat) (k : Key) (m : GoMap)
+    (hk : keyFromEC bits x y (some dv) = .ok k) (hm : k.marshalMap = some m)
+    (hx : 0 < x) (hy : 0 < y) (k' : Key) (hk' : k'.params = m) :
+    k'.ecCoords = (x, y, dv) := by
+  obtain ⟨size, _, _, hxlt, hylt, h3, h4, h5⟩ := ec2_marshal_lookups bits x y _ k m hk hm hx hy
+  rw [← hk'] at h3 h4 h5
+  unfold Key.ecCoords
+  rw [pbytes_of_lookup _ _ _ h3, pbytes_of_lookup _ _ _ h4, pbytes_of_lookup _ _ _ (h5 dv rfl),
+    os2ip_fillBytes _ _ hxlt, os2ip_fillBytes _ _ hylt, os2ip_natBytes]
+
+theorem okp_params_roundtrip (xb : Bytes) (d : Option Bytes) (k : Key)
+    (hk : keyFromEd xb d = .ok k) :
+    k.pbytes (-2) = xb ∧ (∀ dv, d = some dv → k.pbytes (-4) = dv) ∧ k.deriveAlgorithm = some (-8) := by
+  unfold keyFromEd at hk
+  simp only [] at hk
+  split at hk
+  · cases hk
+  · cases hk
+    cases d <;>
+      simp [Key.pbytes, paramBytes, Key.deriveAlgorithm, Key.crv, paramInt, lookup_cons, lookup_nil,
+        keyEq_lbl_lbl, Lk.getD]
+
+
+theorem keyFromEC_signer_alg (bits x y dv : Nat) (k : Key)
+    (hk : keyFromEC bits x y (some dv) = .ok k) (a : Int) (hs : k.signer = .ok a) :
+    a = (if curveOfBits bits = 1 then -7 else if curveOfBits bits = 2 then -35 else -36) ∧
+    (∀ oc b, k.verifier oc = .ok b → b = a) := by
+  obtain ⟨hc, hkeq, hv⟩ := keyFromEC_inv bits x y _ k hk
+  have hl := ecParams_lookups (curveOfBits bits) x y (some dv)
+  have hpar : k.params = ecParams (curveOfBits bits) x y (some dv) := by rw [hkeq]
+  have h2 : k.kty = 2 := by rw [hkeq]
+  rw [← hpar] at hl
+  have hcrv := crv_of_lookup k _ hl.1
+  obtain ⟨_, _, _, hda, _⟩ := C15.signer_gate k a hs
+  constructor
+  · unfold Key.deriveAlgorithm at hda
+    rw [if_pos h2, hcrv] at hda
+    rcases hc with h | h | h <;> rw [h] at hda ⊢ <;> simp at hda ⊢ <;> exact hda.symm
+  · intro oc b hb
+    obtain ⟨_, _, hdb, _⟩ := C15.verifier_gate k oc b hb
+    rw [hda] at hdb
+    exact (Option.some.inj hdb).symm
+
+/-- the parameter loop succeeds on the list `NewKeyEC2` builds (labels -1 … -4 are distinct) -/
+theorem go_ecParams (c : Int) (x y : Nat) (d : Option Nat) (base : GoMap) :
+    ∃ m0, Key.marshalMap.go (ecParams c x y d) [] base = some m0 := by
+  cases d <;>
+    simp [ecParams, Key.marshalMap.go, normalizeLabel, lbl, GoVal.keyEq, wrap64]
+
+theorem marshalMap_some_of_go (k : Key)
+    (h : ∀ base, ∃ m0, Key.marshalMap.go k.params [] base = some m0) : ∃ m, k.marshalMap = some m := by
+  have hne : ∀ base, Key.marshalMap.go k.params [] base ≠ none := by
+    intro base hb
+    obtain ⟨m0, h0⟩ := h base
+    rw [h0] at hb
+    cases hb
+  unfold Key.marshalMap
+  simp only []
+  split
+  · rename_i hgo
+    exact absurd hgo (hne _)
+  · split
+    · split
+      · exact ⟨_, rfl⟩
+      · exact ⟨_, rfl⟩
+    · exact ⟨_, rfl⟩
+
+/-- non-vacuity of `ec2_marshal_fullwidth`: every key `NewKeyEC2` returns can be serialised -/
+theorem keyFromEC_marshal_some (bits x y : Nat) (d : Option Nat) (k : Key)
+    (hk : keyFromEC bits x y d = .ok k) : ∃ m, k.marshalMap = some m := by
+  obtain ⟨_, hkeq, _⟩ := keyFromEC_inv bits x y d k hk
+  apply marshalMap_some_of_go
+  intro base
+  have hpar : k.params = ecParams (curveOfBits bits) x y d := by rw [hkeq]
+  rw [hpar]
+  exact go_ecParams _ x y d base
+
+/-! ### non-vacuity -/
+
+theorem natBytes_one : natBytes 1 = [1] := by simp [natBytes]
+
+/-- P-256 with x = y = d = 1 is accepted structurally and yields ES256 both ways -/
+example : ∃ k, keyFromEC 256 1 1 (some 1) = .ok k ∧ k.signer = .ok (-7) ∧ k.verifier true = .ok (-7) := by
+  refine ⟨{ kty := 2, alg := -7, params := ecParams 1 1 1 (some 1) }, ?_, ?_, ?_⟩
+  · unfold keyFromEC
+    simp [curveOfBits, Key.validate, Key.pbytes, paramBytes, Key.crv, paramInt, lookup_cons,
+      keyEq_lbl_lbl, Lk.getD, natBytes_one, curveSize, Key.deriveAlgorithm, ecParams]
+  · simp [Key.signer, Key.canOp, Key.privateKey, Key.algorithmOrDefault, Key.validate, Key.pbytes,
+      paramBytes, Key.crv, paramInt, lookup_cons, keyEq_lbl_lbl, Lk.getD, natBytes_one,
+      curveSize, Key.deriveAlgorithm, ecParams]
+  · simp [Key.verifier, Key.canOp, Key.publicKey, Key.algorithmOrDefault, Key.validate, Key.pbytes,
+      paramBytes, Key.crv, paramInt, lookup_cons, keyEq_lbl_lbl, Lk.getD, natBytes_one,
+      curveSize, Key.deriveAlgorithm, ecParams]
+
+end C14
+
+/-! ## C12 — hash-envelope header rules -/
+
+namespace C12
+
+/-- the per-entry rules of the protected bucket of a hash envelope -/
+def ProtEntryOK (e : GoVal × GoVal) : Prop :=
+  (∀ k, normalizeLabel e.1 ≠ some (.int k 3)) ∧
+  (∀ k, normalizeLabel e.1 = some (.int k 259) → (canUint e.2 = true ∨ canTstr e.2 = true)) ∧
+  (∀ k, normalizeLabel e.1 = some (.int k 260) → canTstr e.2 = true)
+
+/-- the entry carries a well-typed payload-hash-algorithm (258) -/
+def Is258 (e : GoVal × GoVal) : Prop :=
+  ∃ k, normalizeLabel e.1 = some (.int k 258) ∧ ((∃ a, e.2 = .alg a) ∨ canInt e.2 = true)
+
+theorem hashProtLoop_step (l v : GoVal) (r : GoMap) (found : Bool)
+    (h : hashProtLoop ((l, v) :: r) found = some true) :
+    ProtEntryOK (l, v) ∧
+    ∃ found', hashProtLoop r found' = some true ∧ (found' = found ∨ Is258 (l, v)) := by
+  unfold hashProtLoop at h
+  split at h
+  · cases h
+  · cases h
+  · rename_i k hn
+    have hv : (∃ a, v = .alg a) ∨ canInt v = true := by
+      split at h
+      · exact Or.inl ⟨_, rfl⟩
+      · split at h
+        · rename_i hc; exact Or.inr hc
+        · cases h
+    have hr : hashProtLoop r true = some true := by
+      split at h
+      · exact h
+      · split at h
+        · exact h
+        · cases h
+    refine ⟨⟨?_, ?_, ?_⟩, true, hr, Or.inr ⟨k, hn, hv⟩⟩
+    all_goals (intro k'; simp only [hn]; intro hc; cases hc)
+  · rename_i k hn
+    split at h
+    · rename_i hc
+      refine ⟨⟨?_, ?_, ?_⟩, found, h, Or.inl rfl⟩
+      · intro k'; simp only [hn]; intro hc; cases hc
+      · intro k' _; simpa using hc
+      · intro k'; simp only [hn]; intro hc; cases hc
+    · cases h
+  · rename_i k hn
+    split at h
+    · rename_i hc
+      refine ⟨⟨?_, ?_, ?_⟩, found, h, Or.inl rfl⟩
+      · intro k'; simp only [hn]; intro hc; cases hc
+      · intro k'; simp only [hn]; intro hc; cases hc
+      · intro k' _; exact hc
+    · cases h
+  · rename_i nl h3 h258 h259 h260 hn
+    refine ⟨⟨?_, ?_, ?_⟩, found, h, Or.inl rfl⟩
+    · intro k' hc
+      rw [hn] at hc
+      exact h3 k' (Option.some.inj hc)
+    · intro k' hc
+      rw [hn] at hc
+      exact absurd (Option.some.inj hc) (h259 k')
+    · intro k' hc
+      rw [hn] at hc
+      exact absurd (Option.some.inj hc) (h260 k')
+
+theorem prot_rule_aux : ∀ (p : GoMap) (found : Bool), hashProtLoop p found = some true →
+    (found = true ∨ ∃ e ∈ p, Is258 e) ∧ ∀ e ∈ p, ProtEntryOK e
+  | [], found, h => by
+    simp only [hashProtLoop] at h
+    exact ⟨Or.inl (Option.some.inj h), fun e he => by cases he⟩
+  | (l, v) :: r, found, h => by
+    obtain ⟨hok, found', hr, hf⟩ := hashProtLoop_step l v r found h
+    obtain ⟨ih1, ih2⟩ := prot_rule_aux r found' hr
+    constructor
+    · rcases hf with hf | hf
+      · rcases ih1 with ih1 | ⟨e, he, h258⟩
+        · exact Or.inl (hf ▸ ih1)
+        · exact Or.inr ⟨e, List.mem_cons_of_mem _ he, h258⟩
+      · exact Or.inr ⟨(l, v), List.mem_cons_self .., hf⟩
+    · intro e he
+      rcases List.mem_cons.mp he with rfl | he
+      · exact hok
+      · exact ih2 e he
+
+/-- the protected bucket of an accepted / produced envelope holds a well-typed 258, no 3, and
+    well-typed 259 / 260 -/
+theorem prot_rule (p : GoMap) (h : hashProtLoop p false = some true) :
+    (∃ e ∈ p, ∃ k, normalizeLabel e.1 = some (.int k 258) ∧ ((∃ a, e.2 = .alg a) ∨ canInt e.2 = true)) ∧
+    (∀ e ∈ p, ∀ k, normalizeLabel e.1 ≠ some (.int k 3)) ∧
+    (∀ e ∈ p, ∀ k, normalizeLabel e.1 = some (.int k 259) → (canUint e.2 = true ∨ canTstr e.2 = true)) ∧
+    (∀ e ∈ p, ∀ k, normalizeLabel e.1 = some (.int k 260) → canTstr e.2 = true) := by
+  obtain ⟨h1, h2⟩ := prot_rule_aux p false h
+  refine ⟨?_, fun e he => (h2 e he).1, fun e he => (h2 e he).2.1, fun e he => (h2 e he).2.2⟩
+  rcases h1 with h1 | h1
+  · cases h1
+  · exact h1
+
+/-- both buckets of anything `validateHashEnvelopeHeaders` accepts -/
+theorem headers_rule (p u : GoMap) (h : validateHashEnvelopeHeaders p u = true) :
+    hashProtLoop p false = some true ∧ hashUnprotOK u = true := by
+  unfold validateHashEnvelopeHeaders at h
+  split at h
+  · rename_i hp; exact ⟨hp, h⟩
+  · cases h
+
+
+/-- whatever `SignHashEnvelope` emits passed the digest-length rule and the header rules, and
+    is the Sign1 helper's output over the hash value with the governed labels set -/
+theorem sign_envelope_rules_u (s : Signer) (h : Hdrs) (p : HashPayload) (b : Bytes)
+    (hs : (signHashEnvelope s h p).1 = .ok b) :
+    validateHash p.alg p.value = true ∧
+    ∃ u, (match h.rawU with
+          | some (b :: bs) => Unprotected.unmarshal (b :: bs)
+          | _ => .ok h.u) = .ok u ∧
+      validateHashEnvelopeHeaders (setHashEnvelopeProtectedHeader h.p p) u = true ∧
+      (sign1Helper true { h with p := setHashEnvelopeProtectedHeader h.p p, rawP := none, u := u }
+        p.value none s).1 = .ok b := by
+  unfold signHashEnvelope at hs
+  by_cases hv : validateHash p.alg p.value = true
+  · refine ⟨hv, ?_⟩
+    simp only [hv, Bool.not_true, Bool.false_eq_true, if_false] at hs
+    split at hs
+    · rename_i u hu
+      by_cases hh : validateHashEnvelopeHeaders (setHashEnvelopeProtectedHeader h.p p) u = true
+      · simp only [hh, Bool.not_true, Bool.false_eq_true, if_false] at hs
+        exact ⟨u, hu, hh, hs⟩
+      · simp [hh] at hs
+    · cases hs
+    · cases hs
+    · cases hs
+  · simp [hv] at hs
+
+
+theorem sign_envelope_rules (s : Signer) (h : Hdrs) (p : HashPayload) (b : Bytes)
+    (hs : (signHashEnvelope s h p).1 = .ok b) :
+    validateHash p.alg p.value = true ∧
+    ∃ u, validateHashEnvelopeHeaders (setHashEnvelopeProtectedHeader h.p p) u = true ∧
+      (sign1Helper true { h with p := setHashEnvelopeProtectedHeader h.p p, rawP := none, u := u }
+        p.value none s).1 = .ok b := by
+  obtain ⟨hv, u, _, hh, hb⟩ := sign_envelope_rules_u s h p b hs
+  exact ⟨hv, u, hh, hb⟩
+
+/-- the emitted envelope's buckets satisfy the per-label rules -/
+theorem sign_envelope_conforming (s : Signer) (h : Hdrs) (p : HashPayload) (b : Bytes)
+    (hs : (signHashEnvelope s h p).1 = .ok b) :
+    ∃ u, (sign1Helper true { h with p := setHashEnvelopeProtectedHeader h.p p, rawP := none, u := u }
+        p.value none s).1 = .ok b ∧
+      (∀ e ∈ setHashEnvelopeProtectedHeader h.p p, ProtEntryOK e) ∧
+      (∀ e ∈ u, ∀ n, normalizeLabel e.1 = some (.int .i64 n) → n ≠ 3 ∧ n ≠ 258 ∧ n ≠ 259 ∧ n ≠ 260) := by
+  obtain ⟨_, u, hh, hb⟩ := sign_envelope_rules s h p b hs
+  obtain ⟨hp, hu⟩ := headers_rule _ _ hh
+  exact ⟨u, hb, (prot_rule_aux _ _ hp).2, unprot_rule u hu⟩
+
+/-! ### the governed labels after `setHashEnvelopeProtectedHeader` -/
+
+theorem lookupLabel_of_lookup (h : GoMap) (l v : GoVal) (hl : h.lookup l = some v) :
+    lookupLabel h l = some v := by
+  unfold lookupLabel
+  rw [hl]
+
+/-- label 258 always holds the payload's hash algorithm, typed `Algorithm`, whatever the caller's
+    map held (the assignment overwrites the exact key, which `lookupLabel` consults first) -/
+theorem set_258_eq (base : GoMap) (p : HashPayload) :
+    lookupLabel (setHashEnvelopeProtectedHeader base p) (lbl 258) = some (.alg p.alg) := by
+  apply lookupLabel_of_lookup
+  unfold setHashEnvelopeProtectedHeader
+  simp only []
+  have h1 : (base.set (lbl 258) (.alg p.alg)).lookup (lbl 258) = some (.alg p.alg) :=
+    C14.lookup_set_lbl_same _ _ _
+  have h2 : (match p.pct with
+      | some v => (base.set (lbl 258) (.alg p.alg)).set (lbl 259) v
+      | none => base.set (lbl 258) (.alg p.alg)).lookup (lbl 258) = some (.alg p.alg) := by
+    cases p.pct with
+    | none => exact h1
+    | some v => simp only []; rw [C14.lookup_set_lbl_other _ 259 258 _ (by decide)]; exact h1
+  split
+  · rw [C14.lookup_set_lbl_other _ 260 258 _ (by decide)]; exact h2
+  · exact h2
+
+theorem set_has_258 (base : GoMap) (p : HashPayload) :
+    lookupLabel (setHashEnvelopeProtectedHeader base p) (lbl 258) ≠ none := by
+  rw [set_258_eq]; simp
+
+/-- 259 holds the preimage content type when one is given -/
+theorem set_259_eq (base : GoMap) (p : HashPayload) (v : GoVal) (hp : p.pct = some v) :
+    lookupLabel (setHashEnvelopeProtectedHeader base p) (lbl 259) = some v := by
+  apply lookupLabel_of_lookup
+  unfold setHashEnvelopeProtectedHeader
+  simp only [hp]
+  have h2 : ((base.set (lbl 258) (.alg p.alg)).set (lbl 259) v).lookup (lbl 259) = some v :=
+    C14.lookup_set_lbl_same _ _ _
+  split
+  · rw [C14.lookup_set_lbl_other _ 260 259 _ (by decide)]; exact h2
+  · exact h2
+
+/-- 260 holds the location when it is non-empty -/
+theorem set_260_eq (base : GoMap) (p : HashPayload) (hl : p.location.length > 0) :
+    lookupLabel (setHashEnvelopeProtectedHeader base p) (lbl 260) = some (.str p.location) := by
+  apply lookupLabel_of_lookup
+  unfold setHashEnvelopeProtectedHeader
+  simp only []
+  rw [if_pos hl]
+  exact C14.lookup_set_lbl_same _ _ _
+
+/-- the residue of "the caller's headers are not modified": the model's `Hdrs` argument is
+    immutable, and the retained raw protected bytes play no part in what is signed -/
+theorem sign_ignores_rawP (s : Signer) (h : Hdrs) (p : HashPayload) (r : Option Bytes) :
+    signHashEnvelope s { h with rawP := r } p = signHashEnvelope s h p := rfl
+
+end C12
